@@ -3,6 +3,7 @@
    instantiated with the transition tables regenerated from /repo (Gen/Tables.v). *)
 From Coq Require Import List Bool ZArith.
 From Pandora Require Import Model.Machine Spec.Language Proofs.MachineP Gen.Tables.
+From Pandora Require Import Lib.MachineFlow Proofs.MachineFlowP Gen.MachineFlow Model.MachineGen.
 Import ListNotations.
 
 (* Per-run obligations on the regenerated tables: complete finite computations
@@ -100,6 +101,106 @@ Section C01.
   Proof. exact (history_spec check_table run_table step_ok C01_check_table_wf C01_run_table_wf). Qed.
 End C01.
 
+(* ---------------------------------------------------------------------------------------------------
+   Tie of the CONTROL FLOW to the source (T-gen).  Gen/MachineFlow.v is rewritten at every run from the `ast`
+   of PandoraMachine.check_conf / run / run_prepare / run_exit / is_not_last_scale and of pandora.run
+   (translator/gen_machine_flow.py) as ordered statement skeletons; Lib/MachineFlow.v gives such skeletons a
+   meaning (an interpreter with exceptions, break, return, calls, over the `transitions` semantics [fire] of
+   Model/Machine.v).  C01_check_flow_wf / C01_run_flow_wf are the per-run obligations "what the code says now
+   is the control flow Model/Machine.v implements" (complete finite computations); C01_gen_*_is_model say that
+   the regenerated flow then computes, for ALL machines, pipelines, callback behaviours and numbers of scales,
+   what the hand-written model computes, and the headline theorems are restated on the regenerated flow. *)
+Theorem C01_check_flow_wf : check_flow_wf flows = true.
+Proof. vm_compute. reflexivity. Qed.
+
+Theorem C01_run_flow_wf : run_flow_wf flows = true.
+Proof. vm_compute. reflexivity. Qed.
+
+Section C01Gen.
+  (* behaviour of the check callbacks (any): None = returns, Some e = raises e; and the three oracles the
+     interpreter consults only for flows that are NOT the one of the code *)
+  Variable cb : step -> side -> side -> option exn.
+  Variable dotted : step -> bool.
+  Variable other_kind : step -> selector -> option kind.
+  Variable sorted_steps : list step -> list step.
+
+  Notation gcheck := (gen_check_conf cb dotted other_kind sorted_steps).
+  Notation grun := (gen_run cb dotted other_kind sorted_steps).
+  (* the validity oracle the callbacks induce: step valid (images exchanged or not) iff its callback returns *)
+  Notation ok := (step_ok_of cb).
+
+  (* the regenerated check_conf IS the model's check_conf: same verdict, same machine left behind *)
+  Theorem C01_gen_check_is_model : forall st p, clean (f_m st) ->
+    match check_conf check_table ok (f_m st) p with
+    | Accepted m' => gcheck st p = ONormal (mkF m' SL SR (f_scales st) (f_trace st))
+    | Rejected m' => exists x st', gcheck st p = ORaise x st' /\ f_m st' = m'
+                                   /\ (x = EMachineError \/ uncaught cb p x)
+    end.
+  Proof.
+    exact (fun st p => sem_check_model check_table run_table cb dotted other_kind sorted_steps
+                         C01_check_table_wf flows C01_check_flow_wf 2 st p (le_n 2)).
+  Qed.
+
+  (* the regenerated pandora.run IS the model's run, on every machine (clean or not), for every pipeline
+     (documented or not) and every number of scales *)
+  Theorem C01_gen_run_is_model : forall st p n, (n >= 1)%nat -> f_trace st = [] ->
+    match run run_table (f_m st) p n with
+    | RunOk m' tr => grun st p n = OReturn (RProducts SL SR) (mkF m' (f_left st) (f_right st) (Z.of_nat n) tr)
+    | RunError m' tr => exists x, grun st p n = ORaise x (mkF m' (f_left st) (f_right st) (Z.of_nat n) tr)
+    end.
+  Proof.
+    exact (sem_run_model check_table run_table cb dotted other_kind sorted_steps flows C01_run_flow_wf).
+  Qed.
+
+  (* C01_check_accepts_iff on the regenerated flow *)
+  Theorem C01_gen_check_accepts_iff : forall st p, clean (f_m st) ->
+    (exists st', gcheck st p = ONormal st') <->
+    (spells_documented_path p
+     /\ forallb (fun s => ok s false) p = true
+     /\ (has_kind Val p = true -> forallb (fun s => ok s true) p = true)).
+  Proof.
+    exact (gen_check_accepts_iff check_table run_table cb dotted other_kind sorted_steps
+             C01_check_table_wf flows C01_check_flow_wf).
+  Qed.
+
+  (* C01_check_restores on the regenerated flow, with two things the hand-written model does not carry: after
+     an accepted check self.left_img / self.right_img hold the caller's left / right image again (they were
+     exchanged for the second round); what leaves a refused check is MachineError, unless the check callback
+     of one of its steps raised a class that `except (MachineError, KeyError, AttributeError)` does not name *)
+  Theorem C01_gen_check_restores : forall st p, clean (f_m st) ->
+    if accept_b ok p
+    then gcheck st p
+         = ONormal (mkF (mkM Begin [] (has_kind Val p) (m_scale (f_m st))) SL SR (f_scales st) (f_trace st))
+    else exists x st', gcheck st p = ORaise x st' /\ (x = EMachineError \/ uncaught cb p x).
+  Proof.
+    exact (gen_check_restores check_table run_table cb dotted other_kind sorted_steps
+             C01_check_table_wf flows C01_check_flow_wf).
+  Qed.
+
+  (* "any other pipeline is rejected with a sequencing error": when the check callbacks raise nothing but
+     MachineError / KeyError / AttributeError, whatever leaves check_conf is MachineError *)
+  Theorem C01_gen_reject_is_machine_error :
+    (forall s a b x, cb s a b = Some x -> catches handled x = true) ->
+    forall st p x st', clean (f_m st) -> gcheck st p = ORaise x st' -> x = EMachineError.
+  Proof.
+    exact (gen_reject_is_machine_error check_table run_table cb dotted other_kind sorted_steps
+             C01_check_table_wf flows C01_check_flow_wf).
+  Qed.
+
+  (* C01_run_trace_exact on the regenerated flow; the pair returned is (left_disparity, right_disparity) *)
+  Theorem C01_gen_run_trace_exact : forall st p n d, clean (f_m st) -> f_trace st = [] ->
+    path_ok Begin p = Some d ->
+    (n >= 1)%nat -> ((n > 1)%nat -> has_kind Msc p = true) ->
+    grun st p n
+    = OReturn (RProducts SL SR)
+        (mkF (mkM Begin [] (has_kind Val p) 0) (f_left st) (f_right st) (Z.of_nat n)
+             (expected_trace p n (has_kind Val p))).
+  Proof.
+    exact (gen_run_trace_exact check_table run_table cb dotted other_kind sorted_steps
+             C01_run_table_wf flows C01_run_flow_wf).
+  Qed.
+End C01Gen.
+
 (* The guard of C01_history_any_pipelines is needed: after a REJECTED check
    ([matching_cost; filter]: MachineError raised while the check transitions are
    registered and the state is cost_volume) the accepted pipeline
@@ -147,7 +248,34 @@ Example C01_example_hyps :
   /\ length (expected_trace ex_pipeline 3 true) = 32%nat.
 Proof. repeat split. Qed.
 
+(* Non-vacuity of the interpreter on the regenerated flow: it runs.  A refused check whose callback raises a
+   class outside the except clause lets that class through (so the hypothesis of
+   C01_gen_reject_is_machine_error is needed); a documented 3-scale pipeline runs with the 32-entry trace. *)
+Definition ex_cb_other : step -> side -> side -> option exn :=
+  fun s _ _ => if (s_id s =? 1)%Z then Some EOtherError else None.
+Example C01_gen_example_runs :
+  (exists st', gen_check_conf (fun _ _ _ => None) (fun _ => false) (fun _ _ => None) (fun l => l)
+                 (mkF machine0 SL SR 0 []) ex_good = ONormal st')
+  /\ (exists st', gen_check_conf ex_cb_other (fun _ => false) (fun _ _ => None) (fun l => l)
+                    (mkF machine0 SL SR 0 []) ex_good = ORaise EOtherError st')
+  /\ (exists st', gen_check_conf (fun _ _ _ => None) (fun _ => true) (fun _ _ => None) (fun l => l)
+                    (mkF machine0 SL SR 0 []) ex_bad = ORaise EMachineError st')
+  /\ (exists st', gen_run (fun _ _ _ => None) (fun _ => false) (fun _ _ => None) (fun l => l)
+                    (mkF machine0 SL SR 0 []) ex_pipeline 3 = OReturn (RProducts SL SR) st'
+                  /\ length (f_trace st') = 32%nat).
+Proof.
+  repeat split; eexists; vm_compute; try reflexivity. split; reflexivity.
+Qed.
+
 Print Assumptions C01_check_table_wf.
+Print Assumptions C01_check_flow_wf.
+Print Assumptions C01_run_flow_wf.
+Print Assumptions C01_gen_check_is_model.
+Print Assumptions C01_gen_run_is_model.
+Print Assumptions C01_gen_check_accepts_iff.
+Print Assumptions C01_gen_check_restores.
+Print Assumptions C01_gen_reject_is_machine_error.
+Print Assumptions C01_gen_run_trace_exact.
 Print Assumptions C01_run_table_wf.
 Print Assumptions C01_path_iff_shape.
 Print Assumptions C01_check_accepts_iff.
